@@ -39,7 +39,9 @@ class SymDec:
         if sep != ".":
             raise Unsupported("str(float).split with another separator")
         if ctx().decide(exponent_regime(self.x.e)):
-            raise Unsupported("split('.') of a float rendered in exponent notation")
+            # '5e-05' has no '.', '1.5e-05' has one; either way no piece is a plain decimal numeral: the pieces are
+            # represented by the exponent-form numeral itself
+            return [self]
         return [_IntPart(self.x), _FracPart(self.x)]
 
     def __symfloat__(self):
@@ -136,6 +138,14 @@ class SymNumText:
     __hash__ = None
 
 
+class SymPosText(SymNumText):
+    """np.format_float_positional(x, trim='0'): positional notation, full precision (denotes x exactly)"""
+
+    def __init__(self, x):
+        self.kind, self.x, self.d = "exact", x, None
+        self.value = x
+
+
 class SymBoolText:
     def __init__(self, b, lowered=False):
         self.b, self.lowered = b, lowered
@@ -173,6 +183,14 @@ def sym_str(x="", *a):
     if isinstance(x, (SymDec, SymNumText, SymBoolText)):
         return x
     return str(x, *a)
+
+
+def format_float_positional(x, *a, **k):
+    import numpy as np
+
+    if isinstance(x, (SymReal, SymInt)):
+        return SymPosText(SymReal(_toreal(x.e)))
+    return np.format_float_positional(x, *a, **k)
 
 
 def sym_format(value, spec=""):
